@@ -105,11 +105,19 @@ func c18Gen(rng *rand.Rand, L int) []c18Tok {
 	names := []string{"", "deploy", "dépløy", "x", "deploy "}
 	nn := 1 + rng.Intn(len(names))
 	base := []uint64{0, 1, 5, 1 << 32, math.MaxUint64 - 3}[rng.Intn(5)]
+	// a fifth of the sequences have long quanta (a flush every ~30 events instead of every ~5) and are
+	// longer, so that one flush carries dozens of events with ties
+	long := rng.Intn(5) == 0
+	if long {
+		L = 2*L + 20
+	}
 	seq := make([]c18Tok, L)
 	for i := range seq {
 		switch x := rng.Intn(10); {
-		case x < 2:
+		case x < 2 && (!long || rng.Intn(6) == 0):
 			seq[i] = c18Tok{Flush: true}
+		case x < 2:
+			seq[i] = c18Tok{Name: names[rng.Intn(nn)], LTime: base + uint64(rng.Intn(4)), CC: true, ID: i}
 		case x == 2:
 			seq[i] = c18Tok{Other: true, ID: i, LTime: uint64(i)}
 		default:
